@@ -4,16 +4,17 @@
 -/
 import UBidi.Model.Initial
 import UBidi.Lemmas.C02Char
+import UBidi.Lemmas.C02Width
 namespace UBidi.Lemmas.C02
 open UBidi BidiClass Spec
 
 /-! ### `iiStep`, by components -/
 
 section step
-variable (ds : DataSource) (enc : Enc) (split : Bool) (dflt : Option Nat) (st : IIState) (s : Seg)
+variable (ds : DataSource) (t : Text) (split : Bool) (dflt : Option Nat) (st : IIState) (s : Seg)
 
 theorem iiStep_stack :
-    (iiStep ds enc split dflt st s).stack =
+    (iiStep ds t split dflt st s).stack =
       if ds.cls s.cp == B then (if split then [] else st.stack)
       else if isIsoInit (ds.cls s.cp) then s.start :: st.stack
       else if ds.cls s.cp == PDI then st.stack.tail else st.stack := by
@@ -25,7 +26,7 @@ theorem iiStep_stack :
     cases st.stack <;> simp <;> split <;> rfl
 
 theorem iiStep_paraLevel :
-    (iiStep ds enc split dflt st s).paraLevel =
+    (iiStep ds t split dflt st s).paraLevel =
       if ds.cls s.cp == B then (if split then dflt else st.paraLevel)
       else if isStrong (ds.cls s.cp) && st.stack.isEmpty && st.paraLevel.isNone
         then some (lvlOf (ds.cls s.cp)) else st.paraLevel := by
@@ -37,8 +38,8 @@ theorem iiStep_paraLevel :
     cases st.stack <;> simp <;> split <;> simp_all [lvlOf]
 
 theorem iiStep_paraStart :
-    (iiStep ds enc split dflt st s).paraStart =
-      if ds.cls s.cp == B && split then s.start + enc.charLen s.cp else st.paraStart := by
+    (iiStep ds t split dflt st s).paraStart =
+      if ds.cls s.cp == B && split then s.start + t.enc.charLen s.cp else st.paraStart := by
   simp only [iiStep]
   generalize ds.cls s.cp = c
   cases c <;> (try rfl)
@@ -47,9 +48,9 @@ theorem iiStep_paraStart :
     cases st.stack <;> simp <;> split <;> rfl
 
 theorem iiStep_paras :
-    (iiStep ds enc split dflt st s).paras =
+    (iiStep ds t split dflt st s).paras =
       if ds.cls s.cp == B && split then
-        st.paras ++ [{ start := st.paraStart, stop := s.start + enc.charLen s.cp,
+        st.paras ++ [{ start := st.paraStart, stop := s.start + t.enc.charLen s.cp,
                        level := st.paraLevel.getD 0 }]
       else st.paras := by
   simp only [iiStep]
@@ -60,7 +61,7 @@ theorem iiStep_paras :
     cases st.stack <;> simp <;> split <;> rfl
 
 theorem iiStep_flags_length :
-    (iiStep ds enc split dflt st s).flags.length =
+    (iiStep ds t split dflt st s).flags.length =
       if ds.cls s.cp == B && split then st.flags.length + 1 else st.flags.length := by
   simp only [iiStep]
   generalize ds.cls s.cp = c
@@ -70,12 +71,12 @@ theorem iiStep_flags_length :
     cases st.stack <;> simp <;> split <;> rfl
 
 theorem iiStep_classes :
-    (iiStep ds enc split dflt st s).classes =
-      let X := st.classes ++ List.replicate (enc.charLen s.cp) (ds.cls s.cp)
+    (iiStep ds t split dflt st s).classes =
+      let X := st.classes ++ List.replicate (t.enc.charLen s.cp) (ds.cls s.cp)
       if isStrong (ds.cls s.cp) then
         (match st.stack.head? with
          | some k => if X.getD k ON == FSI
-                     then setRange X k (enc.charLen Gen.fcFSI) (fsiTo (ds.cls s.cp)) else X
+                     then setRange X k (widthAt t k) (fsiTo (ds.cls s.cp)) else X
          | none => X)
       else X := by
   simp only [iiStep]
@@ -83,15 +84,15 @@ theorem iiStep_classes :
   cases c <;> simp only [isStrong] <;> (try rfl)
   case B => cases split <;> rfl
   all_goals
-    cases st.stack <;> simp <;> split <;> simp_all [fsiTo]
+    cases st.stack <;> simp <;> split <;> simp_all [fsiTo, widthAt] <;> (split <;> simp [*])
 
 theorem iiStep_err :
-    (iiStep ds enc split dflt st s).err =
-      let X := st.classes ++ List.replicate (enc.charLen s.cp) (ds.cls s.cp)
+    (iiStep ds t split dflt st s).err =
+      let X := st.classes ++ List.replicate (t.enc.charLen s.cp) (ds.cls s.cp)
       if isStrong (ds.cls s.cp) then
         (match st.stack.head? with
          | some k => if X.getD k ON == FSI
-                     then orErr st.err (if k + enc.charLen Gen.fcFSI ≤ X.length then none
+                     then orErr st.err (if k + widthAt t k ≤ X.length then none
                                         else some .indexOutOfBounds)
                      else st.err
          | none => st.err)
@@ -101,7 +102,7 @@ theorem iiStep_err :
   cases c <;> simp only [isStrong] <;> (try rfl)
   case B => cases split <;> rfl
   all_goals
-    cases st.stack <;> simp <;> split <;> simp_all
+    cases st.stack <;> simp <;> split <;> simp_all [widthAt] <;> (split <;> simp [*])
 
 end step
 
@@ -186,6 +187,29 @@ theorem segsFrom_mem : ∀ (xs : List Seg) (a b : Nat), SegsFrom a xs b → ∀ 
     rcases List.mem_cons.1 hs with rfl | hs
     · have := segsFrom_le _ _ _ h3; omega
     · have := ih _ _ h3 s hs; omega
+
+/-- in a tiling, the character found at a segment's start offset is that segment -/
+theorem segsFrom_find_start : ∀ (xs : List Seg) (a b : Nat), SegsFrom a xs b → ∀ s ∈ xs,
+    xs.find? (fun x => x.start == s.start) = some s := by
+  intro xs
+  induction xs with
+  | nil => intro a b _ s hs; simp at hs
+  | cons x xs ih =>
+    intro a b h s hs
+    obtain ⟨h1, h2, h3⟩ := h
+    rcases List.mem_cons.1 hs with rfl | hs
+    · simp
+    · have := (segsFrom_mem _ _ _ h3 s hs).1
+      have hne : (x.start == s.start) = false := by simp; omega
+      rw [List.find?_cons, hne]
+      exact ih _ _ h3 s hs
+
+/-- `char_at` at the start of a character of a well-formed text returns that character -/
+theorem charAt_start (t : Text) (hwf : t.WF) (s : Seg) (hs : s ∈ t.segs) : t.charAt s.start = some s :=
+  segsFrom_find_start _ _ _ hwf.tiles s hs
+
+theorem widthAt_start (t : Text) (hwf : t.WF) (s : Seg) (hs : s ∈ t.segs) : widthAt t s.start = s.len := by
+  simp [widthAt, charAt_start t hwf s hs]
 
 theorem segsFrom_unique : ∀ (xs : List Seg) (a b b' : Nat), SegsFrom a xs b → SegsFrom a xs b' → b = b' := by
   intro xs
